@@ -43,4 +43,78 @@ CONTRACTS = [
         loops={1: dict(binds="range(int(4 ** observed_length))", invariant={
             "finished-rows": "forall(lambda v: forall(lambda j: accessor[v][j] == (v % ipow(4, observed_length - 1)) * 4 + j, 0, 4), 0, _i)"})},
     ),
+    # ------------------------------------------------------------------ C14
+    dict(
+        name="dsw.graphized.obtain_vertices", n_loops=0, candidates={},
+        ghost_params={"k": "nat"},
+        params={"accessor": "mat(ipow(4, k), 4)"},
+        requires={"graph": "k >= 1 and is_accessor(accessor, k)"},
+        returns="nd_int",
+        ensures={"vertices-with-arcs-ascending": "sorted_positions(result, accessor, k, ipow(4, k))"},
+        raises={},
+        ghost={"entry": "ipow_mono(4, 0, k)"},
+    ),
+    dict(
+        name="dsw.graphized.accessor_to_latter_map", n_loops=1,
+        ghost_params={"k": "nat"},
+        params={"accessor": "mat(ipow(4, k), 4)", "verbose": "false"},
+        requires={"graph": "k >= 1 and is_accessor(accessor, k)"},
+        returns="dict",
+        ensures={"keys-and-successor-lists": "lm_of(result, accessor, k)",
+                 "keys-in-ascending-order": "sorted_positions(order(result), accessor, k, ipow(4, k))"},
+        raises={},
+        ghost={"entry": "ipow_mono(4, 0, k)", "loop1_begin": "mark(location)\n" + "".join("if accessor[location][%d] >= 0:\n    pass\n" % j for j in range(4))},
+        loops={1: dict(binds="enumerate(locations)", invariant={
+            "keys-so-far": "lm_of(latter_map, accessor, k, ite(_i < len(locations), locations[_i], ipow(4, k)))",
+            "order-so-far": "len(order(latter_map)) == _i and forall(lambda i: order(latter_map)[i] == locations[i], 0, _i)"})},
+    ),
+    dict(name="dsw.graphized.latter_map_to_accessor", abstract=True,
+         dispatch={"param": "threshold", "NoneV": "dsw.graphized.latter_map_to_accessor#plain"}),
+    dict(
+        name="dsw.graphized.latter_map_to_accessor#plain", function="dsw.graphized.latter_map_to_accessor", variant_of="dsw.graphized.latter_map_to_accessor",
+        n_loops=2,
+        # acc0: the accessor the latter map describes (ghost): the result must be exactly it
+        ghost_params={"acc0": "mat(ipow(4, observed_length), 4)"},
+        params={"latter_map": "dict", "observed_length": "nat", "threshold": "none", "verbose": "false"},
+        requires={"graph": "observed_length >= 1 and is_accessor(acc0, observed_length)",
+                  "describes-acc0": "lm_of(latter_map, acc0, observed_length)",
+                  "keys-in-ascending-order": "sorted_positions(order(latter_map), acc0, observed_length, ipow(4, observed_length))"},
+        returns="mat(ipow(4, observed_length), 4)",
+        ensures={"shape": "len(result) == ipow(4, observed_length) and len(result[0]) == 4",
+                 "same-accessor": "forall(lambda v: forall(lambda j: result[v][j] == acc0[v][j], 0, 4), 0, ipow(4, observed_length), lambda v: result[v])"},
+        raises={},
+        ghost={"entry": "ipow_mono(4, 0, observed_length)",
+               "loop1_begin": "acc_h = accessor\nassert haskey(latter_map, former_vertex), 'listed-key'\n" +
+                              "".join("if acc0[former_vertex][%d] >= 0:\n    pass\n" % j for j in range(4)),
+               "loop1_end": "".join("assert accessor[former_vertex][%d] == acc0[former_vertex][%d], 'column-%d'\n" % (j, j, j) for j in range(4)) +
+                            "cut(forall(lambda v: forall(lambda j: acc_h[v][j] == -1, 0, 4) or forall(lambda j: acc_h[v][j] == acc0[v][j], 0, 4), "
+                            "0, ipow(4, observed_length), lambda v: acc_h[v]),\n"
+                            "    forall(lambda v: implies(v != former_vertex, forall(lambda j: accessor[v][j] == acc_h[v][j], 0, 4)), 0, ipow(4, observed_length), "
+                            "lambda v: accessor[v]),\n"
+                            "    forall(lambda i: forall(lambda j: acc_h[order(latter_map)[i]][j] == acc0[order(latter_map)[i]][j], 0, 4), 0, _i, "
+                            "lambda i: order(latter_map)[i]),\n"
+                            "    forall(lambda i: order(latter_map)[i] < former_vertex, 0, _i, lambda i: order(latter_map)[i]),\n"
+                            "    former_vertex == order(latter_map)[_i], 0 <= _i, 0 <= former_vertex, former_vertex < ipow(4, observed_length),\n"
+                            "    accessor[former_vertex][0] == acc0[former_vertex][0], accessor[former_vertex][1] == acc0[former_vertex][1],\n"
+                            "    accessor[former_vertex][2] == acc0[former_vertex][2], accessor[former_vertex][3] == acc0[former_vertex][3])\n",
+               "after_loop1": "pv_ = 0\npr = 0\n"
+                              "while pv_ < ipow(4, observed_length):\n"
+                              "    if pr < len(order(latter_map)) and order(latter_map)[pr] == pv_:\n"
+                              "        pr += 1\n"
+                              "    else:\n"
+                              "        assert deg(acc0, pv_) == 0, 'unlisted-vertex-has-no-arc'\n"
+                              "    pv_ += 1\n"},
+        loops={1: dict(binds="enumerate(latter_map.items())", invariant={
+            "listed-rows-done": "forall(lambda i: forall(lambda j: accessor[order(latter_map)[i]][j] == acc0[order(latter_map)[i]][j], 0, 4), 0, _i, "
+                                "lambda i: order(latter_map)[i])",
+            "rows-empty-or-done": "forall(lambda v: forall(lambda j: accessor[v][j] == -1, 0, 4) or forall(lambda j: accessor[v][j] == acc0[v][j], 0, 4), "
+                                  "0, ipow(4, observed_length), lambda v: accessor[v])",
+        }),
+        "after_loop1#1": dict(invariant={
+            "range": "0 <= pv_ <= ipow(4, observed_length) and 0 <= pr <= len(order(latter_map))",
+            "next-key-ahead": "implies(pr < len(order(latter_map)), order(latter_map)[pr] >= pv_)",
+            "previous-key-behind": "implies(pr > 0, order(latter_map)[pr - 1] < pv_)",
+            "rows-equal-so-far": "forall(lambda v: forall(lambda j: accessor[v][j] == acc0[v][j], 0, 4), 0, pv_, lambda v: accessor[v])",
+        }, variant="ipow(4, observed_length) - pv_")},
+    ),
 ]
